@@ -232,12 +232,21 @@ Definition execute (st : mstate) (L : layout) : mstate :=
 
 (* the layout switch of a call: the callee's layout is compared with the layout that is LOADED (not with the
    caller frame's); a callee without globals of its own keeps what is loaded *)
+(* the narrower copy-back (sync_current_function_globals): the layout of the RUNNING function; nothing when that
+   function has no globals of its own and runs on a layout loaded further up *)
+Definition sync_running (st : mstate) : mstate :=
+  match frames st with
+  | f :: _ => match f_lay f with [] => st | _ => sync_loaded st end
+  | [] => st
+  end.
+
 Definition switch_layout (st : mstate) (L : layout) : mstate :=
   let against := if CALLS_COMPARE_WITH_LOADED_LAYOUT then cur st
                  else match frames st with f :: _ => f_lay f | [] => [] end in
   match L with
   | [] => st
-  | _ => if layout_eqb L against then st else prepare (sync_loaded st) L
+  | _ => if layout_eqb L against then st
+         else prepare (if LAYOUT_SWITCHES_SYNC_THE_LOADED_LAYOUT then sync_loaded st else sync_running st) L
   end.
 
 (* entering a bytecode function from bytecode: switch, then push the frame *)
